@@ -27,7 +27,7 @@ use starlark::values::tuple::TupleRef;
 use sv_harness::dialect;
 use sv_harness::enc;
 use sv_harness::err_json;
-use sv_harness::globals;
+use sv_harness::globals_with_host_api as globals;
 use sv_harness::run_cases;
 use sv_harness::take_transcript;
 
